@@ -163,25 +163,16 @@ def delegate_and_fast_reject(ctx, only_fast_reject=False, P=''):
     paths = ctx.paths(SIMPLE)
     body = ctx.body(SIMPLE)
     if paths:
-        consts, classes, other = set(), set(), []
-        terms = [c.term for p in paths for c in p.conds()] + [p.end[1] for p in ret_paths(paths)]
-        for t in terms:
-            for s in subterms(t):
-                if s[0] == "binop" and s[1] in ("Eq", "Ne"):
-                    for x, y in ((s[2], s[3]), (s[3], s[2])):
-                        if strip_refs(x) == ("param", 1) and const_char(y) is not None:
-                            consts.add(const_char(y))
-                if is_call(s):
-                    nm = mir.norm_path(s[1]).split("::")[-1]
-                    if strip_refs(call_args(s)[0]) == ("param", 1) and "char" in s[1]:
-                        classes.add(nm)
-                    else:
-                        other.append(nm)
-        badc = sorted(c for c in consts if c in FORBIDDEN or not c.isascii())
-        badk = sorted(classes - OK_CLASS)
-        ctx.check(not badc and not badk and not other, P + "D3-SIMPLE-CHAR", SIMPLE, "accepted-set", "accepts %s + %s" % (sorted(classes), sorted(consts)),
-                  "is_simple_char accepts %s %s: characters with a special meaning in some pattern type must stop the fast-reject scan" % (badc or "", badk or other or ""), fn_span(body))
-        ctx.floor(P + "D3-SIMPLE-CHAR", SIMPLE, "accepted classes/constants", len(consts) + len(classes), 1)
+        # the accepted set, as a table over all of ASCII plus non-ASCII representatives (however the predicate is spelled: class tests,
+        # `==` chains, ranges, matches!): a character that means something in some pattern type, or a non-ASCII one, must not be "simple"
+        tbl = char_table(paths)
+        unknown = sorted(repr(c) for c, v in tbl.items() if v is None)
+        acc = sorted(c for c, v in tbl.items() if v is True)
+        badc = [c for c in acc if c in FORBIDDEN or not c.isascii()]
+        ctx.check(not unknown and not badc, P + "D3-SIMPLE-CHAR", SIMPLE, "accepted-set", "accepts %d ASCII characters, none special" % len(acc),
+                  "is_simple_char %s: characters with a special meaning in some pattern type (or non-ASCII ones) must stop the fast-reject scan" % (
+                      "accepts %s" % [repr(c) for c in badc] if badc else "cannot be tabulated for %s" % unknown[:5]), fn_span(body))
+        ctx.floor(P + "D3-SIMPLE-CHAR", SIMPLE, "accepted characters", len(acc), 1)
 
     # ---- D3 (ii)
     paths = ctx.paths(QUICK)
@@ -197,32 +188,76 @@ def delegate_and_fast_reject(ctx, only_fast_reject=False, P=''):
                 ctx.violation(P + "D3-QUICK", QUICK, "non-constant-return-%d" % i, "quick_pkg_match returns %s" % term_str(p.end[1])[:80], fn_span(body))
                 continue
             nfalse += 1
-            # ordinal of next() calls per iterator local
-            owner = {}
-            counts = {}
+
+            def chars_owner(t):
+                """the string whose characters an iterator term walks from the front: chars(), possibly bounded by take(n), held in a (loop-carried) local"""
+                t = strip_refs(t)
+                for _ in range(8):
+                    if isinstance(t, tuple) and t and t[0] == "havoc" and len(t) > 3 and isinstance(t[3], tuple):
+                        t = strip_refs(t[3])
+                    elif is_call(t, "IntoIterator>::into_iter", "Iterator>::take", "::take", "::by_ref") and call_args(t):
+                        t = strip_refs(call_args(t)[0])
+                    elif is_call(t, "str>::chars"):
+                        return strip_refs(call_args(t)[0])
+                    else:
+                        break
+                return None
+            # which next() belongs to which string, and its ordinal on this path
             ordinal = {}
+            counts = {}
+            by_local = {}
+
+            def owner_of(arg):
+                l = arg[1][1] if isinstance(arg, tuple) and arg and arg[0] == "refmut" and isinstance(arg[1], tuple) and arg[1][0] == "loc" else None
+                ow = chars_owner(arg)
+                if ow is None and l is not None:
+                    ow = by_local.get(l)          # the same local, already advanced on this path
+                if ow is not None and l is not None:
+                    by_local.setdefault(l, ow)
+                return ow
             for e in p.events:
-                if e.kind == "call" and e.name.endswith("Chars as std::iter::Iterator>::next"):
-                    a = e.args[0]
-                    l = a[1][1]
-                    snap = a[1][2]
-                    if l not in owner:
-                        ch = strip_refs(snap)
-                        owner[l] = strip_refs(call_args(ch)[0]) if is_call(ch, "str>::chars") else None
-                    counts[l] = counts.get(l, 0) + 1
-                    ordinal[e.term] = (owner[l], counts[l])
+                if e.kind == "call" and e.name.endswith("Iterator>::next"):
+                    ow = owner_of(e.args[0])
+                    if ow is None:
+                        continue
+                    counts[ow] = counts.get(ow, 0) + 1
+                    ordinal[e.term] = (ow, counts[ow])
             last = p.conds()[-1]
             e = eq_call(last.term)
             ok = bool(e)
             if ok:
                 neg, x, y = e
                 unequal = (last.fact == ("eq", True)) == neg
-                ox, oy = ordinal.get(strip_refs(x)), ordinal.get(strip_refs(y))
-                ok = unequal and ox is not None and oy is not None and {ox[0], oy[0]} == {("param", 1), ("param", 2)} and ox[1] == oy[1]
+
+                def side(t):
+                    nx = [s_ for s_ in subterms(t) if s_ in ordinal]
+                    return (nx[0], ordinal[nx[0]]) if nx else (None, (None, None))
+                (nxx, ox), (nxy, oy) = side(x), side(y)
+                ok = unequal and {ox[0], oy[0]} == {("param", 1), ("param", 2)}
+                if ok and not body.loops:
+                    ok = ox[1] == oy[1]          # straight-line code: k-th against k-th
+                if ok and body.loops:
+                    # a loop: both iterators advance exactly once on every iteration that continues, so they stay in step
+                    backs = [q for q in paths if q.end[0] == "back"]
+                    for q in backs:
+                        cn = {}
+                        for ev in q.events:
+                            if ev.kind == "call" and ev.name.endswith("Iterator>::next") and ev.bb in body.loops[q.end[1]]:
+                                ow = chars_owner(ev.args[0])
+                                if ow is None:
+                                    continue
+                                cn[ow] = cn.get(ow, 0) + 1
+                        ok = ok and cn.get(("param", 1)) == 1 and cn.get(("param", 2)) == 1
+                        # ... and the scan goes on only past a pattern character shown simple (anything else must end it with `true`)
+                        scq = [c for c in q.conds() if is_call(c.term, SIMPLE) and c.bb in body.loops[q.end[1]]]
+                        ok = ok and bool(scq) and all(c.fact == ("eq", True) for c in scq)
+                    ok = ok and bool(backs)
                 if ok:
-                    pat_next = strip_refs(x) if ox[0] == ("param", 1) else strip_refs(y)
+                    pat_next = nxx if ox[0] == ("param", 1) else nxy
                     sc = [c for c in p.conds() if is_call(c.term, SIMPLE) and mentions(call_args(c.term)[0], lambda s: s == pat_next)]
                     ok = bool(sc) and sc[-1].fact == ("eq", True)
+                    # every pattern character looked at on the way was simple too (otherwise the positions no longer correspond)
+                    ok = ok and all(c.fact == ("eq", True) for c in p.conds() if is_call(c.term, SIMPLE))
             ctx.check(ok, P + "D3-QUICK", QUICK, "false-path-%d" % nfalse, "false only on k-th pattern char (simple) != k-th name char",
                       "quick_pkg_match returns false on a path that is not `k-th pattern character, already shown simple, differs from the k-th name character`", fn_span(body))
         ctx.floor(P + "D3-QUICK", QUICK, "false-returning paths", nfalse, 1)
